@@ -1180,6 +1180,10 @@ def call_method(it, recv, name, args, kwargs, node, fr):
             c_.cast_node = node
             return c_
         return recv
+    if isinstance(recv, _img.Filtered) and name in ("mean", "sum", "std", "max", "min", "var") and not args:
+        r_ = Unk(call("reduce:" + name, recv.term, const(None)))
+        r_.scalar_of_image = True
+        return r_
     raise Unsupported(f"method .{name} on {type(recv).__name__}", node)
 
 
@@ -1465,6 +1469,15 @@ def frame_method(it, f, name, args, kwargs, node, fr):
         for k_, v_ in list(kwargs.items()):
             _lib.setitem(it, c, K(k_), v_, node, fr)
         return c
+    if name in ("isna", "isnull", "notna", "notnull") and not args:
+        # cell by cell: is the value missing?  (a table of flags with the same rows, labels and columns)
+        c = f.clone()
+        neg = name in ("notna", "notnull")
+        c.cols = {k: (mk("not", T("isnan", v)) if neg else T("isnan", v)) for k, v in f.cols.items()}
+        c.notes = list(f.notes) + [(name,)]
+        c.kinds = {k: "bool" for k in f.cols}
+        c.flags_of = f
+        return c
     raise Unsupported(f"DataFrame.{name} is not modelled", node)
 
 
@@ -1576,6 +1589,8 @@ def val_method(it, v, name, args, kwargs, node, fr):
         r.reduced = (name, v, None)
         if name in ("any", "all") and holds_positions(v):
             r.any_of_positions = True
+        if (getattr(v, "rank", None) or 0) >= 2 or getattr(v, "axes", None) is not None:
+            r.scalar_of_image = True  # one number computed from a whole image / volume
         return r
     if name in ("map", "apply"):
         func = args[0]
@@ -1683,6 +1698,11 @@ def arr_method(it, a, name, args, kwargs, node, fr):
         return Unk(call("flatten", to_term(a)))
     if name in ("sum", "mean", "max", "min", "any", "all", "std", "prod"):
         return reduce_(it, name, a, argn(args, kwargs, 0, "axis"), kwargs, node)
+    if name in ("argmax", "argmin"):
+        r = Unk(call("reduce:" + name, to_term(a), to_term(argn(args, kwargs, 0, "axis", K(None)))))
+        if argn(args, kwargs, 0, "axis") is None:
+            r.scalar_pos = True  # a (flat) position: 0 is the first element, not "none"
+        return r
     if name == "tolist":
         if a.ndim == 1:
             return Seq([Val(c) for c in a.cols], "list")
